@@ -10,10 +10,10 @@ from .common import Case
 
 # ---------------------------------------------------------------- stub pyserial
 class StubSerial:
-    """Just enough of serial.Serial. Behaviour is scripted through class attribute `script`."""
+    """The part of serial.Serial a tty backend can reasonably use. Reads follow `rx`: one event (bytes, dt) per read."""
     script = None
 
-    def __init__(self):
+    def __init__(self, *a, **kw):
         self.is_open = False
         self._baud = 9600
         self.baud_log = []
@@ -23,8 +23,11 @@ class StubSerial:
         self.rx = []          # list of (bytes, dt_ms)
         self.flushes = 0
         self.in_flushes = 0
+        self.out_flushes = 0
         self.clock = None
         self.write_results = []
+        self.opens = 0
+        self.fail_open = 0    # the next N open() calls raise SerialException
 
     @property
     def baudrate(self):
@@ -32,14 +35,32 @@ class StubSerial:
 
     @baudrate.setter
     def baudrate(self, v):
+        self._set_baud(v)
+
+    def _set_baud(self, v):
         self._baud = v
         self.baud_log.append(v)
 
     def open(self):
+        if self.fail_open:
+            self.fail_open -= 1
+            raise sys.modules['serial.serialutil'].SerialException('cannot open')
         self.is_open = True
+        self.opens += 1
 
     def close(self):
         self.is_open = False
+
+    def isOpen(self):
+        return self.is_open
+
+    def __enter__(self):
+        if not self.is_open:
+            self.open()
+        return self
+
+    def __exit__(self, *a):
+        self.close()
 
     def flush(self):
         self.flushes += 1
@@ -47,25 +68,171 @@ class StubSerial:
     def reset_input_buffer(self):
         self.in_flushes += 1
 
+    flushInput = reset_input_buffer
+
+    def reset_output_buffer(self):
+        self.out_flushes += 1
+
+    flushOutput = reset_output_buffer
+
+    def cancel_read(self):
+        pass
+
+    def cancel_write(self):
+        pass
+
+    def send_break(self, duration=0.25):
+        pass
+
+    @property
+    def in_waiting(self):
+        n = 0
+        for d, dt in self.rx:
+            if dt:
+                break
+            n += len(d or b'')
+        return n
+
+    @property
+    def out_waiting(self):
+        return 0
+
     def write(self, data):
         self.written.append(bytes(data))
         if self.write_results:
             return self.write_results.pop(0)
         return len(data)
 
-    def read(self, n):
+    def _next(self):
         if self.rx:
-            d, dt = self.rx.pop(0)
-        else:
-            d, dt = b'', 100
+            return self.rx.pop(0)
+        return b'', 100
+
+    def _unread(self, d):
+        self.rx.insert(0, (d, 0))
+
+    def read(self, n=1):
+        d, dt = self._next()
+        d = d or b''
+        if len(d) > n:
+            self._unread(d[n:])
+            d = d[:n]
         if self.clock is not None:
             self.clock.ms += dt
         return d
 
+    def read_all(self):
+        return self.read(self.in_waiting) if self.in_waiting else b''
 
-def install_stub_serial():
+    def read_until(self, expected=b'\n', size=None):
+        out = bytearray()
+        while size is None or len(out) < size:
+            c = self.read(1)
+            if not c:
+                break
+            out += c
+            if out.endswith(expected):
+                break
+        return bytes(out)
+
+    def readline(self, size=-1):
+        return self.read_until(b'\n', None if size is None or size < 0 else size)
+
+    def readinto(self, b):
+        d = self.read(len(b))
+        b[:len(d)] = d
+        return len(d)
+
+
+class LineSerial(StubSerial):
+    """A serial line that follows a request script with the semantics of model/ScriptBackend.v: every read takes the next pending
+    event (or times out), every write starts the next scripted attempt. On top of that: the receiver understands (and is
+    understood) only while the port runs at `receiver_baud`; a frame written is still in the output buffer until time passes."""
+    def __init__(self, *a, **kw):
+        super().__init__(*a, **kw)
+        self.trace = []
+        self.pending = []
+        self.future = []
+        self.idle = 100
+        self.tx_dt = 0
+        self.receiver_baud = None
+        self.unsent = 0          # events (at the tail of pending) that answer a frame still sitting in the output buffer
+        self.in_buffer = False
+        self.babble = None       # (byte, dt): a receiver that never pauses - when nothing is scripted, this byte arrives
+
+    def _set_baud(self, v):
+        self.trace.append(('B', self._baud, v))
+        super()._set_baud(v)
+
+    def _heard(self):
+        return self.receiver_baud is None or self._baud == self.receiver_baud
+
+    def read(self, n=1):
+        self.unsent, self.in_buffer = 0, False
+        if self.pending:
+            d, dt = self.pending.pop(0)
+            if d and len(d) > n:
+                self.pending.insert(0, (d[n:], 0))
+                d = d[:n]
+        elif self.babble is not None:
+            d, dt = bytes([self.babble[0]]), self.babble[1]
+        else:
+            d, dt = None, self.idle
+        if not self._heard():
+            d = None                    # wrong bit rate: nothing intelligible
+        self.clock.ms += dt
+        self.trace.append(('R', d or None, dt))
+        return d or b''
+
+    def write(self, data):
+        buf = bytes(data)
+        if self.future:
+            ok, evs = self.future.pop(0)
+        else:
+            ok, evs = True, []
+        if not self._heard():
+            evs = []
+        self.pending += evs
+        self.unsent, self.in_buffer = len(evs), True
+        if self.tx_dt:
+            self.clock.ms += self.tx_dt
+            self.unsent, self.in_buffer = 0, False
+        self.trace.append(('T', buf, ok))
+        self.written.append(buf)
+        return len(buf) if ok else max(0, len(buf) - 1)
+
+    def flush(self):
+        self.unsent, self.in_buffer = 0, False
+        self.flushes += 1
+
+    def reset_input_buffer(self):
+        self.in_flushes += 1
+        self.pending = []
+        self.unsent = 0
+        self.trace.append(('F',))
+
+    def reset_output_buffer(self):
+        self.out_flushes += 1
+        if self.in_buffer:
+            # the frame written last never left the port: the receiver will not answer it
+            if self.unsent:
+                del self.pending[-self.unsent:]
+            self.unsent, self.in_buffer = 0, False
+            self.trace.append(('X',))
+
+    @property
+    def in_waiting(self):
+        n = 0
+        for d, dt in self.pending:
+            if dt:
+                break
+            n += len(d or b'')
+        return n
+
+
+def install_stub_serial(cls=None):
     mod = types.ModuleType('serial')
-    mod.Serial = StubSerial
+    mod.Serial = cls or StubSerial
     su = types.ModuleType('serial.serialutil')
 
     class SerialException(Exception):
@@ -77,8 +244,8 @@ def install_stub_serial():
     sys.modules['serial.serialutil'] = su
 
 
-def tty_server(baud=115200):
-    install_stub_serial()
+def tty_server(baud=115200, cls=None):
+    install_stub_serial(cls)
     for m in [m for m in sys.modules if m == 'ubxlib.server_tty']:
         del sys.modules[m]
     from ubxlib.frame_factory import FrameFactory
@@ -237,3 +404,71 @@ def backend_cases(res, tier, seed):
         if (r is True) != want:
             res.violation('gpsd _transmit: success reported without OK/ACK reply (or failure despite it)', {'property': 'C12', 'input': desc, 'result': str(r)}, f'c12-gpsd-ok|{kind}')
     return cases
+
+
+# ---------------------------------------------------------------- gpsd setup() end to end (C12, C20)
+def gpsd_setup_cases(res, prop, rng, n, PATHS):
+    """setup() over the stub sockets: handshake loop, device selection, command header, one command. Returns the number of runs."""
+    import json
+    n_total = n
+    # setup() end to end: handshake loop over the stub socket, then the command header and one command
+    class Stop(Exception):
+        pass
+    n_setup = 0
+    for _ in range(n_total):
+        requested = rng.choice([None, '/dev/ttyACM1', '/dev/b', ''])
+        lists = []
+        chunks = []
+        for _c in range(rng.randrange(1, 4)):
+            devs = rng.sample(PATHS, rng.randrange(0, 4))
+            lists.append(devs)
+            line = json.dumps({'class': 'DEVICES', 'devices': [dict({'class': 'DEVICE', 'path': p_}, **rng.choice([{}, {'driver': 'NMEA0183'}, {'driver': None}, {'driver': 'u-blox'}])) for p_ in devs]}, ensure_ascii=rng.random() < 0.5).encode('utf-8')
+            pre = rng.choice([b'', b'{"class":"VERSION","release":"3.25"}\r\n', b'$GPRMC,1*00\r\n', b'\r\n'])
+            chunks.append(pre + line + b'\r\n')
+        if rng.random() < 0.5:      # several lists in one recv(): all are processed before the loop can stop
+            chunks = [b''.join(chunks)]
+        srv, SV = gpsd_server(requested or None)
+        StubSocket.plan = {'data_chunks': list(chunks) + [Stop], 'reply': b'OK'}
+        try:
+            srv.setup()
+            done = True
+        except Stop:
+            done = False
+        except AssertionError:
+            done = False
+        except Exception as e:
+            res.violation('setup(): the handshake raised ' + type(e).__name__, {'property': prop, 'input': {'requested': requested, 'device_lists': lists, 'chunks': [c.decode('latin-1') for c in chunks]}, 'result': repr(e)}, prop.lower() + '-setup-raise|' + type(e).__name__)
+            continue
+        sel, en = None, False
+        # what the handshake must have selected by the time it stopped reading
+        seen = []
+        for ch, grp in zip(chunks, [lists] if len(chunks) == 1 else [[l] for l in lists]):
+            for paths in grp:
+                if requested:
+                    if requested in paths:
+                        sel, en = requested, True
+                elif paths:
+                    sel, en = paths[0], True
+            if en:
+                break
+        desc = {'requested': requested, 'device_lists': lists, 'one_chunk': len(chunks) == 1}
+        n_setup += 1
+        if done != en or srv.selected_device != sel:
+            res.violation('setup(): handshake selected the wrong device or finished in the wrong state',
+                          {'property': prop, 'input': desc, 'expected': [sel, en], 'result': [srv.selected_device, srv.enabled, done]}, prop.lower() + f'-setup|{bool(requested)}')
+        elif done:
+            # a second server object set up in between must not change where the first one sends its commands
+            other = SV.GnssUBlox(None)          # same class object (class-level state would be shared)
+            StubSocket.plan = {'data_chunks': [b'{"class":"DEVICES","devices":[{"path":"/dev/other"}]}\r\n', Stop], 'reply': b'OK'}
+            try:
+                other.setup()
+            except Exception:
+                pass
+            if srv.cmd_header != b'&' + sel.encode() + b'=':
+                res.violation('setup(): command header does not address the selected device', {'property': prop, 'input': desc, 'result': repr(srv.cmd_header)}, prop.lower() + '-header')
+            StubSocket.plan = {'reply': b'OK'}
+            srv._transmit(b'\xb5\x62')
+            sent = StubSocket.plan.get('sent', [b''])[0]
+            if not sent.startswith(b'&' + sel.encode() + b'='):
+                res.violation('command addressed to a device other than the selected one', {'property': prop, 'input': desc, 'sent': repr(sent)}, prop.lower() + '-cmd')
+    return n_setup
